@@ -447,11 +447,13 @@ def check(repo, run, tier):
     g(unitrules.function_tags, repo, run, 'C18.R8')
     g(unitrules.overrides_delegate, repo, run, 'C18.R9', 'AwesomeyamlDumper')
     g(unitrules.wrapped_node_origin, repo, run, 'C18.R10')
+    g(unitrules.node_init_table, repo, run, 'C18.R10')
     g.done()
 
 
 def mutants(repo):
     return [
+        Mutant('explicit-source-file-ignored', lambda r: in_func(r, 'ConfigNode.__init__', "source_file if source_file is not None else", "source_file if source_file is None else"), ['C18.R10']),
         Mutant('write-plain-does-not-delegate', lambda r: in_func(r, 'AwesomeyamlDumper.write_plain', "        super().write_plain(text, *args, **kwargs)\n", "        pass\n"), ['C18.R9']),
         Mutant('bind-tag-of-callable', lambda r: in_func(r, 'BindNode.ayns.tag', "if not isinstance(_func, str):", "if isinstance(_func, str):"), ['C18.R8']),
         Mutant('source-file-overwritten', lambda r: in_func(r, 'AwesomeyamlLoader._convert', "if ret._source_file is None:", "if ret._source_file is not None:"), ['C18.R10']),
